@@ -13,9 +13,9 @@ inline void relink(Sig &s) {
 }
 inline void flipByte(Bytes &b, Dec &d, size_t from = 1) { if (b.size() > from) { size_t i = from + d.pick((uint32_t)(b.size() - from)); b[i] ^= (uint8_t)(1u << d.pick(8)); } }
 enum SigMut { SM_NEXT_INPUT, SM_SIBLING, SM_CORR, SM_ALG_OTHER, SM_ALG_SHA1, SM_ALG_UNSUPPORTED, SM_CHAIN_TIME, SM_INDEX_LAST, SM_INDEX_ADD, SM_INDEX_DROP, SM_LINK_DIR, SM_CAL_INPUT, SM_CAL_AGGRTIME, SM_CAL_DROP_AGGRTIME,
-              SM_CAL_DIR, SM_CAL_PUBTIME, SM_CAL_SIBLING, SM_REC_TIME, SM_REC_HASH, SM_DOC_SHA1, SM_RFC_INPUT, SM_RFC_TIME, SM_RFC_INDEX, SM_RFC_ALG_SHA1, SM_RFC_PREFIX, SM_META_PAD, SM_CORR_OVERFLOW, SM_CAL_EXTRA_LINK, SM_CAL_SIB_ALG, SM_RFC_OUT_SHA1, SM_RELABEL_INPUT_ALG, SM_COUNT };
+              SM_CAL_DIR, SM_CAL_PUBTIME, SM_CAL_SIBLING, SM_REC_TIME, SM_REC_HASH, SM_DOC_SHA1, SM_RFC_INPUT, SM_RFC_TIME, SM_RFC_INDEX, SM_RFC_ALG_SHA1, SM_RFC_PREFIX, SM_META_PAD, SM_CORR_OVERFLOW, SM_CAL_EXTRA_LINK, SM_CAL_SIB_ALG, SM_RFC_OUT_SHA1, SM_RELABEL_INPUT_ALG, SM_WRAP32, SM_COUNT };
 static const char *kSigMutName[] = {"next-chain-input", "sibling", "level-correction", "chain-alg-other", "chain-alg-sha1", "chain-alg-unsupported", "chain-time", "index-last", "index-add", "index-drop", "link-direction", "cal-input", "cal-aggr-time",
-                                    "cal-drop-aggr-time", "cal-link-direction", "cal-pub-time", "cal-sibling", "record-time", "record-hash", "doc-hash-sha1", "rfc-input", "rfc-time", "rfc-index", "rfc-alg-sha1", "rfc-prefix", "metadata-padding", "level-overflow", "cal-extra-link", "cal-sibling-alg", "rfc-output-sha1", "relabel-input-algorithm-same-digest"};
+                                    "cal-drop-aggr-time", "cal-link-direction", "cal-pub-time", "cal-sibling", "record-time", "record-hash", "doc-hash-sha1", "rfc-input", "rfc-time", "rfc-index", "rfc-alg-sha1", "rfc-prefix", "metadata-padding", "level-overflow", "cal-extra-link", "cal-sibling-alg", "rfc-output-sha1", "relabel-input-algorithm-same-digest", "time-or-index-plus-multiple-of-2^32"};
 // returns false when the mutation does not apply to this signature
 inline bool applySigMut(Sig &s, int kind, Dec &d, std::string &note) {
     size_t n = s.chains.size(); size_t ci = d.pick((uint32_t)n); AggChain &c = s.chains[ci];
@@ -25,6 +25,13 @@ inline bool applySigMut(Sig &s, int kind, Dec &d, std::string &note) {
     case SM_CORR: { Link &l = c.links[d.pick((uint32_t)c.links.size())]; if (l.corr > 0 && d.flag()) l.corr--; else l.corr++; return true; }
     case SM_CORR_OVERFLOW: { Link &l = c.links[d.pick((uint32_t)c.links.size())]; static const uint64_t big[] = {255, 256, 0xffffffffULL, 0x100000000ULL, 0xffffffffffffffffULL, 300}; l.corr = big[d.pick(6)]; return true; }
     case SM_ALG_OTHER: { static const int a[] = {1, 4, 5, 2}; int na = a[d.pick(4)]; if ((uint64_t)na == c.algId) na = na == 1 ? 5 : 1; c.algId = (uint64_t)na; return true; }
+    case SM_WRAP32: { // one time or chain-index value moved by a non-zero multiple of 2^32 (equal in its low 32 bits to the value it must match)
+        uint64_t add = (uint64_t)(1 + d.pick(7)) << 32; unsigned w = d.pick(7);
+        switch (w) { case 0: c.aggrTime += add; note = "chain-time"; return true; case 1: c.index[d.pick((uint32_t)c.index.size())] += add; note = "chain-index"; return true;
+            case 2: if (!s.hasRfc) return false; s.rfc.aggrTime += add; note = "rfc-time"; return true; case 3: if (!s.hasRfc || s.rfc.index.empty()) return false; s.rfc.index[d.pick((uint32_t)s.rfc.index.size())] += add; note = "rfc-index"; return true;
+            case 4: if (!s.hasCal || !s.cal.hasAggrTime) return false; s.cal.aggrTime += add; note = "cal-aggr-time"; return true;
+            case 5: if (s.hasPub) { s.pub.data.time += add; note = "publication-record-time"; return true; } if (s.hasAuth) { s.auth.data.time += add; note = "authentication-record-time"; return true; } return false;
+            default: if (!s.hasCal) return false; s.cal.pubTime += add; note = "cal-pub-time"; return true; } }
     case SM_ALG_SHA1: c.algId = 0; relink(s); return true;
     case SM_ALG_UNSUPPORTED: { static const uint64_t a[] = {3, 6, 7, 8, 11, 0x7e, 0x100, 0xffffffffffULL}; c.algId = a[d.pick(8)]; return true; }
     case SM_CHAIN_TIME: c.aggrTime += d.flag() ? 1 : (uint64_t)(1 + d.pick(100000)); return true;
